@@ -167,6 +167,14 @@ def output_table(ctx, f):
             # table = [labels] ; for ... in zip(...): table.append(row) ; [table.reverse() is not possible here: the header would move]
             a0 = c.args[0]
             if isinstance(a0, ast.Name):
+                # table = [labels] ; table += <rows>
+                roots = [x for x in ast.walk(f.node) if isinstance(x, ast.Assign) and len(x.targets) == 1 and isinstance(x.targets[0], ast.Name) and x.targets[0].id == a0.id]
+                augs = [x for x in ast.walk(f.node) if isinstance(x, ast.AugAssign) and isinstance(x.target, ast.Name) and x.target.id == a0.id]
+                if len(roots) == 1 and len(augs) == 1 and isinstance(augs[0].op, ast.Add) and not flow._mutation_sites(a0.id):
+                    labels = _labels_of(flow, roots[0].value)
+                    rows = _rows_of(flow, f, augs[0].value)
+                    if labels is not None and rows is not None:
+                        return c, labels, rows
                 dv = flow.def_value(a0, mutable_ok=True)
                 labels = _labels_of(flow, dv) if dv is not None else None
                 dn, un = flow.unique_def_node(a0), flow.cfg.node_containing(a0)
